@@ -36,6 +36,31 @@ where
     I: Iterator<Item = T>,
     T: PartialEq + Debug,
 {
+    check_inner(what, sig, cap, &make, |x| x)
+}
+
+/// The same for item types without `PartialEq`: items are compared through
+/// their `Debug` rendering (the iterator itself is still the library's own).
+pub fn check_debug<I, T>(what: &str, sig: &str, cap: usize, make: impl Fn() -> I) -> Result<bool, Fail>
+where
+    I: Iterator<Item = T>,
+    T: Debug,
+{
+    check_inner(what, sig, cap, &make, |x| format!("{:?}", x))
+}
+
+fn check_inner<I, U, T>(what: &str, sig: &str, cap: usize, make: &impl Fn() -> I, key: impl Fn(U) -> T) -> Result<bool, Fail>
+where
+    I: Iterator<Item = U>,
+    T: PartialEq + Debug,
+{
+    // every adaptor below is called on the library's iterator; `key` is applied to the items
+    // it hands out
+    macro_rules! keyed {
+        ($e:expr) => {
+            $e.map(|x| key(x))
+        };
+    }
     // reference: repeated next(), recording size_hint before every call
     let mut it = make();
     let mut items: Vec<T> = Vec::new();
@@ -43,7 +68,7 @@ where
     loop {
         hints.push(it.size_hint());
         match it.next() {
-            Some(x) => items.push(x),
+            Some(x) => items.push(key(x)),
             None => break,
         }
         if items.len() > cap {
@@ -62,16 +87,19 @@ where
     }
     let c = make().count();
     ensure_sig!(c == n, sig, "{}: count() = {} but next() yields {} items", what, c, n);
-    let l = make().last();
+    let l = keyed!(make().last());
     ensure_sig!(l.as_ref() == items.last(), sig, "{}: last() = {:?} but the final item from next() is {:?}", what, l, items.last());
     for k in probes(n) {
         // nth on a fresh iterator, and what follows it
         let mut it = make();
-        let got = it.nth(k);
+        let got = keyed!(it.nth(k));
         ensure_sig!(got.as_ref() == items.get(k), sig, "{}: nth({}) = {:?} but item {} from next() is {:?} ({} items)", what, k, got, k, items.get(k), n);
         if k < n {
             let hint = it.size_hint();
-            let rest: Vec<T> = it.collect();
+            let mut rest: Vec<T> = Vec::new();
+            for x in it {
+                rest.push(key(x));
+            }
             ensure_sig!(rest[..] == items[k + 1..], sig, "{}: after nth({}) the iterator yields {:?}, expected {:?}", what, k, rest, &items[k + 1..]);
             let left = n - k - 1;
             ensure_sig!(hint.0 <= left && hint.1.map(|h| h >= left).unwrap_or(true), sig,
@@ -90,17 +118,17 @@ where
             for _ in 0..k {
                 it.next();
             }
-            let l = it.last();
+            let l = keyed!(it.last());
             let exp = if k < n { items.last() } else { None };
             ensure_sig!(l.as_ref() == exp, sig, "{}: last() after {} next() calls = {:?}, expected {:?}", what, k, l, exp);
-            let sk: Vec<T> = make().skip(k).collect();
+            let sk: Vec<T> = make().skip(k).map(&key).collect();
             ensure_sig!(sk[..] == items[k..], sig, "{}: skip({}) yields {:?}, expected {:?}", what, k, sk, &items[k..]);
-            let tk: Vec<T> = make().take(k).collect();
+            let tk: Vec<T> = make().take(k).map(&key).collect();
             ensure_sig!(tk[..] == items[..k], sig, "{}: take({}) yields {:?}, expected {:?}", what, k, tk, &items[..k]);
         }
     }
     for step in [2usize, 3] {
-        let got: Vec<T> = make().step_by(step).collect();
+        let got: Vec<T> = make().step_by(step).map(&key).collect();
         let exp: Vec<&T> = items.iter().step_by(step).collect();
         ensure_sig!(got.iter().collect::<Vec<_>>() == exp, sig, "{}: step_by({}) yields {:?}, expected {:?}", what, step, got, exp);
     }
@@ -108,6 +136,7 @@ where
     ensure_sig!(folded == n, sig, "{}: fold visits {} items, next() yields {}", what, folded, n);
     let mut seen = 0usize;
     for (i, x) in make().enumerate() {
+        let x = key(x);
         ensure_sig!(items.get(i) == Some(&x), sig, "{}: a for loop yields {:?} at position {}, next() yielded {:?}", what, x, i, items.get(i));
         seen += 1;
     }
